@@ -26,19 +26,21 @@ structure CFormat where
   layout : Layout
   rxText : Bytes
   rx : Option Rx            -- none = regular expression outside the modelled subset
+  guard : Bool := false     -- the expression is wrapped in the left guard `(?:^|[^0-9])`
   hasLocation : Bool
   hasYear : Bool
   noDate : Bool
 deriving Repr, DecidableEq
 
 /-- the loop body of `NewParser` -/
-def compile (terms : List Term) (fmt : Bytes) : CFormat :=
+def compile (terms : List Term) (guard : Bool) (fmt : Bytes) : CFormat :=
   let noDate := !(fmt.any (fun c => c == 89 || c == 77 || c == 68))       -- !ContainsAny(fmt, "YMD")
   let rxText := regexpMap terms fmt
   { fmt := fmt
     layout := Layout.ofBytes (dateMap terms fmt)
     rxText := rxText
     rx := parseRegexp rxText
+    guard := guard
     hasLocation := fmt.contains 90                                            -- Contains(fmt, "Z")
     hasYear := !noDate && fmt.contains 89                                     -- Contains(fmt, "Y")
     noDate := noDate }
@@ -74,7 +76,7 @@ def formatParse (adj : Adjust) (cf : CFormat) (now : Now) (buf : Bytes) : FRes :
   match cf.rx with
   | none => .unsupported 1
   | some rx =>
-    match find rx buf with
+    match findG cf.guard rx buf with
     | none => .err
     | some sub =>
       match parseLayout cf.layout sub with
